@@ -1,4 +1,5 @@
 import Vata.Parse
+import Vata.Generated.Tables
 /-! # Driver side of NFA histories (`nfah`): properties C09, C10, C11 (word automata) -/
 open Vata
 open Vata.W (NFA acceptsW)
@@ -123,6 +124,22 @@ partial def go (steps : List String) (res : List String) (k : Nat) (pool : List 
         if c != bchar exp then f := f ++ [s!"violation step {k} incl[{n}]={c} reference={bchar exp}"]
       let eA ← getE (emptyW A FUEL) "fuel"
       tags := tags ++ [s!"incl={bchar exp}", s!"emptyA={bchar eA}"]
+    | "inclall" =>
+      let A ← ent 1
+      let B ← ent 2
+      let w ← getE (kv res s!"w{k}") "missing option vector"
+      let exp ← getE (inclW A B FUEL) "fuel"
+      let impl := Vata.Gen.faDispatch.map (·.word)
+      for (c, i) in w.toList.zip (List.range 128) do
+        if c == '-' then continue
+        if impl.contains i then
+          if c == 'N' || c == 'E' || c == 'T' || c == 'C' then
+            f := f ++ [s!"violation step {k} implemented option word {i} answered {c}"]
+          else if [0, 1, 33].contains i && c != bchar exp then
+            f := f ++ [s!"violation step {k} incl[word {i}]={c} reference={bchar exp}"]
+        else if c != 'N' then
+          f := f ++ [s!"violation step {k} unimplemented option word {i} answered {c} instead of NotImplementedException"]
+      tags := tags ++ ["inclall=1"]
     | "add" =>
       let ix ← argN 1
       let A ← ent 1
